@@ -121,6 +121,7 @@ def snapshot_provider(server, clients):
     out["token_handler"] = canon({k: {"cls": type(h).__name__, "lifetime": getattr(h, "lifetime", None),
                                       "kwargs": {a: b for a, b in getattr(h, "kwargs", {}).items() if a != "upstream_get"}}
                                   for k, h in ctx.session_manager.token_handler.handler.items() if h is not None})
+    out["registered_client_ids"] = sorted(str(k) for k in ctx.cdb.keys())
     for cid in clients:
         rec = ctx.cdb.get(cid)
         out["client:" + cid] = canon({k: v for k, v in rec.items() if k != "auth_method"}) if rec is not None else None
@@ -262,6 +263,38 @@ def make_exec(server, clock, oidc):
                 req.append((tag, dict(req).get(base, "x")))
             return self._authz(urllib.parse.urlencode(req), user, cref)
 
+        REG_GOOD = {"redirect_uris": ["https://dyn.example.org/cb"], "response_types": ["code"], "application_type": "web",
+                    "token_endpoint_auth_method": "client_secret_post", "grant_types": ["authorization_code"]}
+        REG_REFUSED = [{"post_logout_redirect_uri": "https://dyn.example.org/logout#frag"},
+                       {"request_uris": ["https://dyn.example.org/ro?x=1"]},
+                       {"policy_uri": "https://elsewhere.example.net/policy"},
+                       {"redirect_uris": ["https://dyn.example.org/cb#frag"]}]
+
+        def op_register(self, kind, existing):
+            """dynamic registration: kind 0 = accepted, 1.. = a request that passes the schema and is refused inside;
+            existing: re-registration of a registered client (new_id=False), which must keep its record when refused"""
+            import json as _json
+            ep = self.server.get_endpoint("registration")
+            if ep is None:
+                return ["skip"]
+            msg = dict(self.REG_GOOD)
+            if kind:
+                msg.update(self.REG_REFUSED[(kind - 1) % len(self.REG_REFUSED)])
+            kw = {}
+            if existing:
+                msg["client_id"] = existing
+                kw = {"new_id": False, "set_secret": False}
+            try:
+                req = ep.parse_request(_json.dumps(msg))
+                res = ep.process_request(request=req, **kw)
+            except Exception as e:
+                return ["exc", type(e).__name__]
+            if isinstance(res, dict) and "response_args" in res and "client_id" in res["response_args"]:
+                if existing and not kind:
+                    return ["ok", "re-registered"]
+                return ["ok", "registered"]
+            return ["err", (res.get("error") if isinstance(res, dict) else str(res))]
+
         def op_authz_bad(self, kind):
             req = {"client_id": "client_1", "redirect_uri": self.redirect("client_1"), "response_type": "code",
                    "scope": "openid", "state": "s", "nonce": "n"}
@@ -350,9 +383,13 @@ def next_op(rng, P, oidc):
             return ("authz_res", rng.choice(USERS), c, rng.choice(SCOPES), rng.choice([["client_1"], ["client_2", "client_3"], [c], ["https://rs.example.org"]]))
         rt = "code" if (rng.random() < 0.75 or not oidc) else rng.choice(["code id_token", "id_token token", "code token", "id_token"])
         return ("authz", rng.choice(USERS), c, rng.choice(SCOPES), rt)
-    if r < 0.23:
+    if r < 0.20:
         return ("authz_bad", rng.randint(0, 3))
-    if r < 0.27:
+    if r < 0.24:
+        if oidc:
+            return ("register", rng.randint(1, 4), rng.choice([None, None, rng.choice(clients)]))
+        return ("authz_bad", rng.randint(0, 3))
+    if r < 0.28:
         return ("authz_wire", rng.choice(USERS), rng.choice(clients), rng.choice(SCOPES),
                 rng.choice([None, "response_type#en", "scope#fr", "state#x-1", "nonce#de", "claims_locales#en", "ui_locales#sv-SE"]))
     if r < 0.42:
